@@ -38,6 +38,17 @@ def fail_key(tr, line, clause):
     return "C17:%s:%s:%s:%s" % (isa, e.get("st", "?"), clause, e.get("k", "?"))
 
 
+def coarse_key(tr, line, clause):
+    """apply stage only: the key of DESIGN.md 3.5 proper (innermost amoco frame).  A semantics function that
+    builds an ill-sized expression for SOME operand values fails inside the size checks of amoco/cas; which
+    i_MNEMONIC functions do so is value dependent, so the finding is also listed once per (isa, exception,
+    cas-level frame).  Tried only when the narrow key is not listed."""
+    e = tr["ev"][line - 1]
+    if clause == "Raised" and e["st"] == "apply" and e.get("at0") and e["at0"] != e["at"]:
+        return "C17:%s:apply:%s:%s" % (tr["m"].split("/")[0], e["exc"], e["at0"])
+    return None
+
+
 def describe(tr, line, clause):
     e = tr["ev"][line - 1]
     dec = tr["ev"][0]
@@ -104,6 +115,8 @@ def run(ctx):
     verdicts = D.validate(ctx, traces, "c17")
     ctx.note("wall_validate_s", round(time.time() - t_val, 1))
     stage_counts = {}
+    known = set(k.get("key") for k in ctx.known)
+    coarse_seen = {}
     for tr in traces:
         kinds = tuple("%s:%s" % (e["st"], e["k"]) for e in tr["ev"])
         dec = tr["ev"][0]
@@ -116,12 +129,18 @@ def run(ctx):
         st["inputs"] += 1
         st[dec["k"]] += 1
         for line, clause, _ in verdicts[tr["t"]]:
-            ctx.fail(fail_key(tr, line, clause), describe(tr, line, clause),
-                     {"source": "T", "trace": tr, "line": line, "clause": clause})
+            key = fail_key(tr, line, clause)
+            ck = coarse_key(tr, line, clause)
+            if ck is not None:
+                coarse_seen.setdefault(ck, set()).add(key)
+                if key not in known and ck in known:
+                    key = ck
+            ctx.fail(key, describe(tr, line, clause), {"source": "T", "trace": tr, "line": line, "clause": clause})
     ctx.note("per_isa_mode", per_isa)
     ctx.note("syntaxes_rendered", syn)
     ctx.note("stage_outcomes", stage_counts)
     ctx.note("inputs", len(traces))
+    ctx.note("apply_crashes_by_cas_level_frame", dict((k, sorted(v)) for k, v in sorted(coarse_seen.items())))
     good = [t for t in traces if len(t["ev"]) > 4 and not verdicts[t["t"]]]
     for t in (good[:2] + [t for t in traces if verdicts[t["t"]]][:2]):
         ctx.sample({"m": t["m"], "src": t["src"], "in": bytes(t["in"]).hex(), "events": t["ev"],
